@@ -8,6 +8,7 @@
 -/
 import StatsCI.Driver.IntervalOps
 import StatsCI.Driver.StatOps
+import StatsCI.Driver.ConfOps
 import StatsCI.Driver.PropOps
 import StatsCI.Driver.ProgOps
 
@@ -22,13 +23,17 @@ def evalLine (prop op : String) (args : List String) : Option OpEval :=
     match prop with
     | "C07" | "C13" | "C14" | "C15" | "C19" =>
         (intervalOp op ty rest).map fun m => { run := fun _ _ => { model := m.map Tok.s } }
+    | "C18" => (confOp op rest).map fun m => { run := fun _ _ => { model := m.map Tok.s } }
     | _ =>
       match statOp op ty rest with
       | some e => some e
       | none =>
         match propOp op ty rest with
         | some e => some e
-        | none => progOp op ty rest
+        | none =>
+          match progOp op ty rest with
+          | some e => some e
+          | none => progOp09 op ty rest
 
 def splitAt (sep : String) (toks : List String) : List String × List String :=
   let pre := toks.takeWhile (· != sep)
